@@ -103,7 +103,7 @@ func runCheck(opts checkOpts) int {
 			sel = append(sel, o)
 		}
 	}
-	work := filepath.Join(verifDir, "work", prop)
+	work := filepath.Join(verifDir, "work", prop+os.Getenv("VERIF_WORK_SUFFIX"))
 	_ = os.RemoveAll(work)
 	_ = os.MkdirAll(work, 0o755)
 	t1 := time.Now()
@@ -165,7 +165,7 @@ func runCheck(opts checkOpts) int {
 			}
 		}
 	}
-	replayDir := filepath.Join(verifDir, "replays")
+	replayDir := filepath.Join(verifDir, "replays"+os.Getenv("VERIF_WORK_SUFFIX"))
 	_ = os.MkdirAll(replayDir, 0o755)
 	// group violations by base obligation name: one VIOLATION line each
 	grouped := map[string][]*Obligation{}
@@ -186,8 +186,25 @@ func runCheck(opts checkOpts) int {
 		}
 		fmt.Printf("VIOLATION property=%s replay=%s obligation=%s%s\n", prop, rp.Path, b, suffix)
 	}
+	// thorough tier: audits of the assumptions and the must-fail corpus
+	if opts.tier == "thorough" && os.Getenv("VERIF_NO_EVIDENCE") == "" {
+		audits, err := p.runAudits(opts)
+		p.audits = audits
+		if err != nil {
+			fmt.Println("bipverif:", err)
+			toolErr = true
+		}
+		st, err := p.runSelftest(opts)
+		p.selftest = st
+		if err != nil {
+			fmt.Println("bipverif:", err)
+			toolErr = true
+		}
+	}
 	wall := time.Since(t0).Seconds()
-	writeEvidence(p, opts, sel, obls, nObl, nDis, covers, perBackend, solverTime, genS, solveS, wall, len(order), knownHits)
+	if os.Getenv("VERIF_NO_EVIDENCE") == "" {
+		writeEvidence(p, opts, sel, obls, nObl, nDis, covers, perBackend, solverTime, genS, solveS, wall, len(order), knownHits)
+	}
 	fmt.Printf("bipverif: property %s tier %s: %d obligations, %d discharged, %d violated (%d distinct), %d known; load %.1fs gen %.1fs solve %.1fs\n",
 		prop, opts.tier, nObl, nDis, len(violations), len(order), len(knownHits), p.loadSecs, genS-p.loadSecs, solveS)
 	if toolErr {
